@@ -3,7 +3,7 @@
 
 The harness instantiates several hundred extents patterns; one translation unit takes ~2 minutes.
 This wrapper compiles the SAME source once per table part (inst_<tier>_<k>.inc, -DC19_PART=k),
-all parts concurrently, and links the objects.  It accepts the g++ command line the engine builds:
+at most C19_JOBS (default 5) parts at a time, and links the objects.  It accepts the g++ command line the engine builds:
     pcxx.py <flags...> -DC19_TABLEBASE=inst_quick -DC19_NPARTS=10 <src> -o <exe>
 """
 import os
@@ -41,15 +41,21 @@ def main(argv):
         sys.stderr.write("pcxx.py: need <src>.cpp, -o <exe> and -DC19_TABLEBASE=<name>\n")
         return 2
     tmp = tempfile.mkdtemp(prefix="c19-build-")
-    procs = []
     objs = []
+    cmds = []
     for k in range(nparts):
         obj = os.path.join(tmp, "part%d.o" % k)
         objs.append(obj)
-        cmd = [cxx] + flags + ["-DC19_PART=%d" % k, '-DC19_TABLE="%s_%d.inc"' % (base, k), "-c", src, "-o", obj]
-        procs.append(subprocess.Popen(cmd, stdout=subprocess.PIPE, stderr=subprocess.STDOUT))
+        cmds.append([cxx] + flags + ["-DC19_PART=%d" % k, '-DC19_TABLE="%s_%d.inc"' % (base, k), "-c", src, "-o", obj])
+    # at most C19_JOBS (default 5) compiler processes at a time: the machine is shared
+    jobs = max(1, int(os.environ.get("C19_JOBS", "5")))
     rc = 0
-    for p in procs:
+    running = []
+    pending = list(cmds)
+    while pending or running:
+        while pending and len(running) < jobs:
+            running.append(subprocess.Popen(pending.pop(0), stdout=subprocess.PIPE, stderr=subprocess.STDOUT))
+        p = running.pop(0)
         o, _ = p.communicate()
         if p.returncode != 0:
             rc = p.returncode
